@@ -45,8 +45,26 @@ pub const FAMILIES: [&str; 20] = [
 pub const APIS: [&str; 4] = ["iter-str", "iter-buffered", "load-yaml", "load-marked"];
 pub const RATIO_LIMIT: f64 = 6.0;
 
-/// Render a family at (about) `bytes` bytes.
+/// "Billion laughs": `levels` anchored sequences, each aliasing the previous one `width` times.
+pub fn alias_text(levels: usize, width: usize) -> String {
+    let mut s = String::new();
+    s.push_str("a0: &a0 [");
+    s.push_str(&vec!["x"; width].join(","));
+    s.push_str("]\n");
+    for i in 1..levels {
+        s.push_str(&format!("a{i}: &a{i} ["));
+        s.push_str(&vec![format!("*a{}", i - 1); width].join(","));
+        s.push_str("]\n");
+    }
+    s
+}
+
+/// Render a family at (about) `bytes` bytes. For `alias-expansion` the size is the number of
+/// levels, not bytes (each level adds ~46 bytes and multiplies the expanded tree by 9).
 pub fn render(family: &str, bytes: usize) -> String {
+    if family == "alias-expansion" {
+        return alias_text(bytes, 9);
+    }
     let mut s = String::with_capacity(bytes + 256);
     let mut k = 0usize;
     match family {
@@ -372,6 +390,55 @@ pub fn run(cfg: &Config) -> (i32, J) {
             exit = 1;
         }
     }
+    // Alias expansion: work must grow like the text (x2.1 from 3 to 5 levels), not like the
+    // expanded tree (x81). Listed (family, API) pairs are known findings, anything else a violation.
+    let known = match crate::c11::load_known(&cfg.verif_dir, "C01") {
+        Ok(k) => k,
+        Err(e) => {
+            eprintln!("harness error: {e}");
+            return (2, J::Null);
+        }
+    };
+    let (l1, l2) = (3usize, 5usize);
+    let byte_growth = alias_text(l2, 9).len() as f64 / alias_text(l1, 9).len() as f64;
+    let mut alias_rows = Vec::new();
+    let mut known_hit = Vec::new();
+    for api in APIS {
+        let r = (|| -> Result<(u64, u64), String> { Ok((measure("alias-expansion", l1, api)?.0, measure("alias-expansion", l2, api)?.0)) })();
+        let (i1, i2) = match r {
+            Ok(v) => v,
+            Err(e) => {
+                eprintln!("harness error: instruction clock: {e}");
+                return (2, J::Null);
+            }
+        };
+        let i0 = base[api];
+        let growth = i2.saturating_sub(i0) as f64 / i1.saturating_sub(i0).max(1) as f64;
+        let superlinear = growth > byte_growth * (RATIO_LIMIT / 4.0);
+        alias_rows.push(J::obj().with("api", J::str(api)).with("levels", J::Arr(vec![J::int(l1), J::int(l2)])).with("instructions", J::Arr(vec![J::int(i1), J::int(i2)])).with("growth", J::Float(growth)).with("text_growth", J::Float(byte_growth)).with("superlinear", J::Bool(superlinear)));
+        if superlinear {
+            let key = format!("alias-expansion/{api}");
+            if let Some(k) = known.iter().find(|k| k.key == key) {
+                println!("KNOWN-FINDING: property=C01 key={key} work grows x{growth:.1} while the text grows x{byte_growth:.2} ({l1} -> {l2} levels): {}", k.desc);
+                known_hit.push(key);
+            } else if exit == 0 {
+                let class = "SUPERLINEAR(instruction-clock)";
+                let detail = format!("alias expansion through {api}: {i1} instructions at {l1} levels, {i2} at {l2} levels: growth x{growth:.1} while the text grows x{byte_growth:.2}; key {key} is not a listed known finding");
+                let path = format!("{}/replays/C01-{}-scale-alias-expansion-{}.json", cfg.verif_dir, cfg.seed, api);
+                let mut rj = crate::batch::replay_json(cfg, 0, &Case::default(), class, &detail, None, 0);
+                rj.set("case", J::obj().with("property", J::str("C01")).with("generator", J::str("scale")).with("shape", J::str("alias-expansion")).with("depth", J::int(l1)).with("api", J::str(api)));
+                let _ = std::fs::create_dir_all(format!("{}/replays", cfg.verif_dir));
+                if std::fs::write(&path, rj.to_pretty()).is_err() {
+                    eprintln!("harness error: cannot write {path}");
+                    return (2, J::Null);
+                }
+                println!("violation class={class} detail={detail}");
+                println!("VIOLATION property=C01 replay={path}");
+                vj = J::obj().with("class", J::str(class)).with("detail", J::str(&detail)).with("replay", J::str(&path));
+                exit = 1;
+            }
+        }
+    }
     let wall = t0.elapsed().as_secs_f64();
     let max_ratio = worst.as_ref().map_or(0.0, |w| w.ratio);
     println!(
@@ -408,6 +475,8 @@ pub fn run(cfg: &Config) -> (i32, J) {
                 .collect(),
         ),
     );
+    ev.set("alias_expansion", J::Arr(alias_rows));
+    ev.set("known_findings_reproduced", J::Arr(known_hit.iter().map(|k| J::str(k)).collect()));
     ev.set("wall_s", J::Float(wall));
     if vj != J::Null {
         ev.set("violation", vj);
@@ -419,6 +488,29 @@ pub fn replay(case: &Case, path: &str) -> i32 {
     if !valgrind_available() {
         eprintln!("harness error: valgrind not available");
         return 2;
+    }
+    if case.shape == "alias-expansion" {
+        let r = (|| -> Result<(u64, u64, u64), String> {
+            Ok((measure("map-entries", 0, &case.api)?.0, measure("alias-expansion", case.depth, &case.api)?.0, measure("alias-expansion", case.depth + 2, &case.api)?.0))
+        })();
+        return match r {
+            Err(e) => {
+                eprintln!("harness error: {e}");
+                2
+            }
+            Ok((i0, i1, i2)) => {
+                let growth = i2.saturating_sub(i0) as f64 / i1.saturating_sub(i0).max(1) as f64;
+                let byte_growth = alias_text(case.depth + 2, 9).len() as f64 / alias_text(case.depth, 9).len() as f64;
+                if growth > byte_growth * (RATIO_LIMIT / 4.0) {
+                    println!("violation class=SUPERLINEAR(instruction-clock) detail=alias expansion through {}: growth x{growth:.1} for text growth x{byte_growth:.2}", case.api);
+                    println!("VIOLATION property=C01 replay={path}");
+                    1
+                } else {
+                    println!("replay of {path}: no violation (growth x{growth:.2} for text growth x{byte_growth:.2})");
+                    0
+                }
+            }
+        };
     }
     let r = (|| -> Result<(u64, u64, u64), String> {
         let (i0, _) = measure(&case.shape, 0, &case.api)?;
